@@ -64,6 +64,22 @@ CLAIMED['C02'] = (
     'quick tier range over 22 boundary characters per window instead of 256; classes that do not exhaust within the '
     'cap are reported INCONCLUSIVE and not counted as decided', '5 C02')
 
+CLAIMED['C01'] = (
+    'K: objects of ~40 message/record/extension/key-exchange/DNS/RDP/MySQL/OpenVPN classes built through the real '
+    'constructors from symbolic integers (full field width), symbolic opaque bytes and every enum member: compose is '
+    'accepted by the same class, consumes every byte and yields a field-by-field equal object. P: for every seeded class '
+    'the same chain on the objects parsed from single-byte windows of accepted vectors',
+    'opaque bytes <= 3 (quick) / 4 (thorough); one symbolic enum dimension per shard; quick tier: three index ranges '
+    'per large enum and two window positions per class; X.509 objects only through seed vectors; deep_eq compares '
+    'library objects field by field and third-party values with their own ==', '5 C01')
+CLAIMED['C05'] = (
+    'chain parse -> compose -> parse -> compose decided on single-byte windows of every seeded class plus shape '
+    'generators for accepted non-canonical inputs: SCSV markers at every position of a client hello, multi-string TXT, '
+    'IDNA A-labels, SPF prefix/cidr lengths over their whole range, unknown flag bits (4 free bits per shard); HTTP '
+    'dates with zone offsets and the 255/256 byte TXT boundary are enumerated natively, not solver-decided',
+    'dateutil cannot be executed symbolically (DESIGN.md 5 C05): the date clause is a concrete list; windows as C01',
+    '5 C05')
+
 NOT_APPLICABLE = {
     'C19': 'asymptotic claim (work linear in input size for n, 2n, 4n, ...): a bounded symbolic execution fixes the '
            'input size, so a pass says nothing about growth; the total-work bound needs an amortised argument over '
